@@ -19,6 +19,8 @@ package main
 // model (written by the generator from its description of the worlds below).
 
 import (
+	"context"
+	"errors"
 	"fmt"
 	"math"
 	"net/netip"
@@ -31,6 +33,8 @@ import (
 	"unsafe"
 
 	endpoint "github.com/envoyproxy/go-control-plane/envoy/config/endpoint/v3"
+	discovery "github.com/envoyproxy/go-control-plane/envoy/service/discovery/v3"
+	"google.golang.org/grpc/metadata"
 	"google.golang.org/protobuf/types/known/wrapperspb"
 
 	meshconfig "istio.io/api/mesh/v1alpha1"
@@ -219,10 +223,44 @@ func encGateways(gws []model.NetworkGateway) string {
 }
 
 type conn struct {
-	watched []claQuery
-	served  map[string]*endpoint.ClusterLoadAssignment
-	pending *model.PushRequest
-	inited  bool
+	watched  []claQuery
+	served   map[string]*endpoint.ClusterLoadAssignment
+	pending  *model.PushRequest
+	inited   bool
+	sotw     *sotwRec
+	delta    *deltaRec
+	sotwCon  *pxds.Connection
+	deltaCon *pxds.Connection
+}
+
+// recording gRPC streams: what the server sends on a connection
+type recBase struct{}
+
+func (recBase) SetHeader(metadata.MD) error  { return nil }
+func (recBase) SendHeader(metadata.MD) error { return nil }
+func (recBase) SetTrailer(metadata.MD)       {}
+func (recBase) Context() context.Context     { return context.Background() }
+func (recBase) SendMsg(any) error            { return nil }
+func (recBase) RecvMsg(any) error            { return nil }
+
+type sotwRec struct {
+	recBase
+	sent []*discovery.DiscoveryResponse
+}
+
+func (s *sotwRec) Send(r *discovery.DiscoveryResponse) error { s.sent = append(s.sent, r); return nil }
+func (s *sotwRec) Recv() (*discovery.DiscoveryRequest, error) {
+	return nil, errors.New("eof")
+}
+
+type deltaRec struct {
+	recBase
+	sent []*discovery.DeltaDiscoveryResponse
+}
+
+func (s *deltaRec) Send(r *discovery.DeltaDiscoveryResponse) error { s.sent = append(s.sent, r); return nil }
+func (s *deltaRec) Recv() (*discovery.DeltaDiscoveryRequest, error) {
+	return nil, errors.New("eof")
 }
 
 type claWorld struct {
@@ -267,6 +305,7 @@ func newClaWorld(id int) *claWorld {
 	quiet.Silence()
 	w := &claWorld{id: id, f: f, s: s, proxies: map[string]*model.Proxy{}, conns: map[string]*conn{}, drVar: map[string]int{}}
 	w.ds = pxds.NewDiscoveryServer(s.Discovery.Env, map[string]string{}, krt.GlobalDebugHandler)
+	w.ds.Generators[v3.EndpointType] = w.generator()
 	fld := reflect.ValueOf(w.ds).Elem().FieldByName("pushChannel")
 	w.pushCh = reflect.NewAt(fld.Type(), unsafe.Pointer(fld.UnsafeAddr())).Elem()
 	for i, d := range claProxies {
@@ -542,6 +581,11 @@ func (w *claWorld) push(name, mode string, qs []claQuery) []*endpoint.ClusterLoa
 		// a new connection: the first EDS request is answered in full
 		req = &model.PushRequest{Forced: true, Reason: model.NewReasonStats(model.ProxyRequest)}
 		c.inited = true
+		p.WatchedResources = map[string]*model.WatchedResource{}
+		p.NewWatchedResource(v3.EndpointType, sets.SortedList(names))
+		c.sotw, c.delta = &sotwRec{}, &deltaRec{}
+		c.sotwCon = pxds.VerifNewConnection(p, c.sotw)
+		c.deltaCon = pxds.VerifNewDeltaConnection(p, c.delta)
 	} else {
 		req = c.pending
 	}
@@ -550,36 +594,38 @@ func (w *claWorld) push(name, mode string, qs []claQuery) []*endpoint.ClusterLoa
 		r := *req
 		r.Push = w.env().PushContext()
 		r.Start = time.Now()
-		// as pushConnection does before generating: refresh the proxy's view of the config (SidecarScope ...)
-		pxds.VerifC01ComputeProxyState(w.ds, p, &r)
-		wr := &model.WatchedResource{TypeUrl: v3.EndpointType, ResourceNames: names}
-		var res model.Resources
-		removed := sets.New[string]()
+		// the REAL per-connection push: pushConnection / pushConnectionDelta (computeProxyState, ProxyNeedsPush,
+		// pushXds / pushDeltaXds with the delta removal rule, Send); the responses arrive on the recording
+		// stream and are applied the way an xDS client does
 		if mode == "delta" {
-			var deleted model.DeletedResources
-			var logs model.XdsLogDetails
-			var usedDelta bool
-			res, deleted, logs, usedDelta, _ = w.generator().GenerateDeltas(p, &r, wr)
-			// the rule of pushDeltaXds (delta.go): a generator that used delta names what it removes; one that did
-			// not and is not incremental answered "state of the world": every watched resource it did not send is removed
-			if usedDelta {
-				removed.InsertAll(deleted...)
-			} else if !logs.Incremental {
-				removed = names.Copy()
-				for _, x := range res {
-					removed.Delete(x.Name)
+			c.delta.sent = nil
+			if err := pxds.VerifC03PushConnectionDelta(w.ds, c.deltaCon, &r); err != nil {
+				panic(err)
+			}
+			for _, resp := range c.delta.sent {
+				for _, n := range resp.RemovedResources {
+					delete(c.served, n)
+				}
+				for _, x := range resp.Resources {
+					cla := &endpoint.ClusterLoadAssignment{}
+					if err := x.GetResource().UnmarshalTo(cla); err == nil {
+						c.served[cla.ClusterName] = cla
+					}
 				}
 			}
 		} else {
-			res, _, _ = w.generator().Generate(p, wr, &r)
-		}
-		for n := range removed {
-			delete(c.served, n)
-		}
-		for _, x := range res {
-			cla := &endpoint.ClusterLoadAssignment{}
-			if err := x.GetResource().UnmarshalTo(cla); err == nil {
-				c.served[cla.ClusterName] = cla
+			c.sotw.sent = nil
+			if err := pxds.VerifC03PushConnection(w.ds, c.sotwCon, &r); err != nil {
+				panic(err)
+			}
+			for _, resp := range c.sotw.sent {
+				// EDS over SotW: every assignment in the response replaces the one held; the others stay
+				for _, x := range resp.Resources {
+					cla := &endpoint.ClusterLoadAssignment{}
+					if err := x.UnmarshalTo(cla); err == nil {
+						c.served[cla.ClusterName] = cla
+					}
+				}
 			}
 		}
 	}
@@ -1151,7 +1197,9 @@ func expected(world int, q claQuery, unh bool, d svcDesc, variant int, paOff boo
 			ug := usable(string(e.Network), string(e.Locality.ClusterID))
 			remote := len(ug) > 0 && (p.network == "" && e.Network != "" || !sameOrEmpty(string(e.Network), p.network))
 			if !remote {
-				if e.EndpointPort != 0 && e.Addresses[0] != "" {
+				// an endpoint the proxy reaches directly is served as reported: a unix domain socket like any
+				// other; only one reported without any address at all has nothing to be served as
+				if e.EndpointPort == 0 || e.Addresses[0] != "" {
 					exp[loc] = append(exp[loc], epTok(e.Addresses[0], int(e.EndpointPort), h, w, mtls))
 				}
 				continue
